@@ -473,18 +473,18 @@ Definition sk_tucker_normalize : cmd := seq [   (* tucker_tensor = 0 *)
 Definition sk_tucker_normalize_method : cmd := seq [
   Call 20 sk_tucker_normalize [0] 18; ListGet 21 20 0; ListGet 22 20 1; ListSet 0 0 21; ListSet 0 1 22 ].
 
-(* --- process_regularization_weights(ridge_coefficients=0, sparsity_coefficients=1, n_modes) as the code IS:
-       when the caller passes lists, `ridge_coefficients[i] = 0` / `sparsity_coefficients[i] = 0` (None entries) and
-       `ridge_coefficients[i] = max(sparsity_coefficients)` (unregularised modes) assign into the CALLER's lists.
-       nr / ns = positions of None entries of the two lists, dg = unregularised positions, mx = position of the maximum. *)
+(* --- process_regularization_weights(ridge_coefficients=0, sparsity_coefficients=1, n_modes): list arguments are copied
+       (`list(...)`, fix 58815dd), then `ridge_coefficients[i] = 0` / `sparsity_coefficients[i] = 0` (None entries) and
+       `ridge_coefficients[i] = max(sparsity_coefficients)` (unregularised modes) assign into the COPIES.
+       nr / ns = positions of None entries of the two lists, dg = unregularised positions, mx = position of the maximum,
+       n = length of the lists.  `old_prw` mirrors the code before the fix (assignments into the caller's lists). *)
 Definition prw_writes (r s : var) (nr ns dg : list nat) (mx : nat) : cmd := seq (
   map (fun i => Seq (Alloc 10 1) (ListSet r i 10)) nr ++
   map (fun i => Seq (Alloc 10 1) (ListSet s i 10)) ns ++
   map (fun i => Seq (ListGet 11 s mx) (ListSet r i 11)) dg).
-Definition sk_prw (nr ns dg : list nat) (mx : nat) : cmd := Seq (prw_writes 0 1 nr ns dg mx) (ListNew 12 [0; 1]).
-(* candidate repair: ridge_coefficients = list(ridge_coefficients); sparsity_coefficients = list(sparsity_coefficients) first *)
-Definition sk_prw_repaired (n : nat) (nr ns dg : list nat) (mx : nat) : cmd :=
+Definition sk_prw (n : nat) (nr ns dg : list nat) (mx : nat) : cmd :=
   seq [ ListCopy 20 0 n; ListCopy 21 1 n; prw_writes 20 21 nr ns dg mx; ListNew 12 [20; 21] ].
+Definition old_prw (nr ns dg : list nat) (mx : nat) : cmd := Seq (prw_writes 0 1 nr ns dg mx) (ListNew 12 [0; 1]).
 
 (* ================================================================== early exits
    `run c n s` executes at most n primitive commands of c and then stops (an exception raised between two effects
